@@ -448,6 +448,13 @@ impl World {
             }
         }
         if self.wants(Class::Fresh) {
+            // a right the model does not expect to be published must not come back with a
+            // point that was published before either
+            for (r, (_, h)) in &w.keys {
+                if !expected.contains_key(r) && self.published.values().any(|h2| h2 == h) {
+                    fails.push((Class::Fresh, format!("{op}/superseded-point-published-again"), format!("right {:?}", r)));
+                }
+            }
             for (r, (_, h)) in &w.keys {
                 if let Some((rev, _)) = expected.get(r) {
                     self.published.insert((r.clone(), *rev), h.clone());
